@@ -29,6 +29,31 @@ TARGETS = {
              args=["u", "p2"], params={}, atoms={"self.u": "u"},
              param_assigns={"p2": "getattr(self, 'rate_error_2', 0.0001)"}),
     ],
+    "audit": [
+        dict(name="overstatement_assorter", file="shangrla/core/Audit.py", func="Assertion.overstatement_assorter",
+             args=["omega", "ua", "v"], params={},
+             atoms={"self.assorter.overstatement(mvr, cvr, use_style)": "omega", "self.assorter.upper_bound": "ua", "self.margin": "v"}),
+        dict(name="make_overstatement", file="shangrla/core/Audit.py", func="Assertion.make_overstatement",
+             args=["overs", "ua", "v"], params={"overs": "overs"},
+             atoms={"self.assorter.upper_bound": "ua", "self.margin": "v"}),
+        dict(name="u_mvrs_to_data", file="shangrla/core/Audit.py", func="Assertion.mvrs_to_data",
+             args=["margin", "upper_bound"], params={"margin": "margin", "upper_bound": "upper_bound"}, atoms={},
+             result="u", mentions=["margin"]),
+        dict(name="u_set_margin_from_cvrs", file="shangrla/core/Audit.py", func="Assertion.set_margin_from_cvrs",
+             args=["v", "ua"], params={}, atoms={"self.margin": "v", "self.assorter.upper_bound": "ua"},
+             result="self.test.u", mentions=["self.margin"]),
+        dict(name="u_set_all_margins", file="shangrla/core/Audit.py", func="Assertion.set_all_margins_from_cvrs",
+             args=["margin", "ua"], params={"margin": "margin"}, atoms={"asn.assorter.upper_bound": "ua"},
+             result="u", mentions=["margin"]),
+        dict(name="margin_plurality", file="shangrla/core/Audit.py", func="Assertion.find_margin_from_tally",
+             args=["tw", "tl", "cards"], params={},
+             atoms={"tally[self.winner]": "tw", "tally[self.loser]": "tl", "self.contest.cards": "cards"},
+             result="self.margin", mentions=["self.loser"]),
+        dict(name="margin_supermajority", file="shangrla/core/Audit.py", func="Assertion.find_margin_from_tally",
+             args=["tw", "valid", "cards", "f"], params={"valid": "valid"},
+             atoms={"tally[self.winner]": "tw", "self.contest.cards": "cards", "self.contest.share_to_win": "f"},
+             result="self.margin", mentions=["share_to_win"], locals=["q", "p"]),
+    ],
     "raire": [
         dict(name="bp_estimate", file="shangrla/raire/sample_estimator.py", func="bp_estimate",
              args=["winner", "loser", "other", "total"],
@@ -76,6 +101,10 @@ def expr(node, env, atoms):
         if node.id in env:
             return env[node.id]
         raise TranslationError(f"unknown name {node.id}")
+    if isinstance(node, ast.IfExp):
+        # `a if c else b` with a numeric condition: Python truthiness of a number is "not equal to zero"
+        return (f"(if Qeq_bool {expr(node.test, env, atoms)} (mkq (0) 1) then {expr(node.orelse, env, atoms)} "
+                f"else {expr(node.body, env, atoms)})")
     if isinstance(node, ast.Call):
         f = ast.unparse(node.func)
         a = node.args
@@ -90,11 +119,57 @@ def expr(node, env, atoms):
     raise TranslationError(f"unsupported expression: {src}")
 
 
+def blocks(stmts):
+    """all statement lists nested in a function body (the body itself, branches of if/else, with/try bodies)"""
+    yield stmts
+    for st in stmts:
+        for field in ("body", "orelse", "finalbody"):
+            sub = getattr(st, field, None)
+            if isinstance(sub, list) and sub and not isinstance(st, (ast.FunctionDef, ast.ClassDef)):
+                yield from blocks(sub)
+        for h in getattr(st, "handlers", []) or []:
+            yield from blocks(h.body)
+
+
+def translate_block(target, fn):
+    """`select`: translate the straight-line run of assignments, inside the unique statement list of the function that
+    assigns `result` with a value mentioning every string of `mentions`, from the first statement assigning one of
+    `locals` (or the result statement itself) up to the result statement."""
+    want, mentions, locs = target["result"], target.get("mentions", []), target.get("locals", [])
+    found = []
+    for blk in blocks(fn.body):
+        for i, st in enumerate(blk):
+            if isinstance(st, ast.Assign) and len(st.targets) == 1 and ast.unparse(st.targets[0]) == want \
+                    and not isinstance(st.value, (ast.Name, ast.Attribute, ast.Constant)) \
+                    and all(m in ast.unparse(st.value) for m in mentions):
+                found.append((blk, i))
+    if len(found) != 1:
+        raise TranslationError(f"{target['func']}: expected exactly one assignment to {want} mentioning {mentions}, found {len(found)}")
+    blk, i = found[0]
+    start = i
+    while start > 0 and isinstance(blk[start - 1], ast.Assign) and len(blk[start - 1].targets) == 1 \
+            and ast.unparse(blk[start - 1].targets[0]) in locs:
+        start -= 1
+    env = dict(target["params"])
+    lets = []
+    for st in blk[start:i]:
+        name = ast.unparse(st.targets[0])
+        lets.append((name, expr(st.value, env, target["atoms"])))
+        env[name] = f"v_{name}"
+    body = expr(blk[i].value, env, target["atoms"])
+    for name, e in reversed(lets):
+        body = f"let v_{name} := {e} in\n  {body}"
+    args = " ".join(target["args"])
+    return f"(* {target['file']}: {target['func']} ({want} = ...) *)\nDefinition gen_{target['name']} ({args} : Q) : Q :=\n  {body}.\n"
+
+
 def translate(target, repo=None):
     repo = repo or C.REPO
     path = os.path.join(repo, target["file"])
     tree = ast.parse(open(path).read())
     fn = find_func(tree, target["func"])
+    if "result" in target:
+        return translate_block(target, fn)
     env = dict(target["params"])
     lets = []
     pa = target.get("param_assigns", {})
